@@ -1063,10 +1063,27 @@ fn c08_conformance_once(rep: &mut Report, full: bool) -> u64 {
                 add_simple_peer(&d, addr, local, 65001).await?;
                 let mut c = connect(&d, addr, crate::fsm::Role::Passive).await?.ok_or("refused")?;
                 let caps = vec![Capability::MultiProtocol(Family::IPV4), Capability::FourOctetAsNumber(65001)];
+                let h = local.min(remote as u64);
                 if !c.establish(65001, 0x0a000001, remote, caps).await? {
+                    // the OPEN exchange takes milliseconds: a Hold Timer Expired NOTIFICATION now is a
+                    // verdict (zero negotiated: no timer may run; otherwise >= 3 s early), anything else is not
+                    let t1 = Instant::now();
+                    while t1.elapsed() < Duration::from_millis(1000) {
+                        match tokio::time::timeout(Duration::from_millis(200), c.read_msg()).await {
+                            Ok(Ok(Some(bgp::ParsedMessage::Notification(n)))) if n.notification_code() == 4 => {
+                                return Ok(if h == 0 {
+                                    "VIOLATION zero-hold: Hold Timer Expired NOTIFICATION right after the OPEN exchange".to_string()
+                                } else {
+                                    format!("VIOLATION expiry-time: Hold Timer Expired NOTIFICATION right after the OPEN exchange (negotiated {h} s)")
+                                });
+                            }
+                            Ok(Ok(Some(_))) => continue,
+                            Ok(Ok(None)) | Ok(Err(_)) => break,
+                            Err(_) => {}
+                        }
+                    }
                     return Err("session did not establish".to_string());
                 }
-                let h = local.min(remote as u64);
                 let t0 = Instant::now();
                 if h == 0 {
                     // KEEPALIVE, UPDATE, then silence: the session must stay up and nothing timer-driven may arrive
